@@ -48,7 +48,7 @@ EXPECTED_PROBES = ["fault_before_first_attr", "fault_in_write_skip_metadata",
                    "target_absent_after", "target_unreadable_after",
                    "write_once_refused", "stragglers_at_raise", "recovery_save_ok",
                    "hardlinked_foreign_file", "hardlinked_snapshot_of_saved_object",
-                   "target_is_symlink_to_object"]
+                   "target_is_symlink_to_object", "fault_is_keyboard_interrupt"]
 # thorough tier only: "sweep_exhaustive" / "sweep_strided" count how many workloads were swept over
 # EVERY fault position and how many (more than 700 store positions) over a stride
 
@@ -572,10 +572,17 @@ def run(plan):
     for pos in positions:
         if "errno" not in pos and pos["kind"] in ("store", "zip_write", "zip_open"):
             # the KIND of failure varies too: several errnos and non-OSError exception types
-            pos = dict(pos, errno=ern.pick(["ENOSPC", "EIO", "EACCES", "ENOSPC", "EIO", "ValueError",
-                                            "RuntimeError", "MemoryError", "PermissionError",
-                                            "TimeoutError", "KeyError"]))
+            kinds_ = ["ENOSPC", "EIO", "EACCES", "ENOSPC", "EIO", "ValueError", "RuntimeError",
+                      "MemoryError", "PermissionError", "TimeoutError", "KeyError"]
+            if pos["kind"] != "store":
+                # an injected Ctrl-C (BaseException) at the synchronous seams of the zip assembly;
+                # store operations run inside the simulated event loop, where asyncio treats a
+                # KeyboardInterrupt as a loop shutdown (not injected there)
+                kinds_ = kinds_ + ["KeyboardInterrupt", "KeyboardInterrupt"]
+            pos = dict(pos, errno=ern.pick(kinds_))
         out = _execute(plan, pos, rec_counts=counts, refs=refs, keep_log=True)
+        if out.get("fired") and pos.get("errno") == "KeyboardInterrupt":
+            bump(res["probes"], "fault_is_keyboard_interrupt")
         sub = out["res"]
         for k in ("faults", "probes", "obs"):
             for kk, vv in sub[k].items():
